@@ -219,4 +219,17 @@ example : (txExecute .morpheus [2, 2, 2, 2, 2] wTx wView).2.toOption.map (fun r 
 example : total (txExecute .morpheus [2, 2, 2, 2, 2] wTx wView).1.cur [a1] = 100 := by decide +kernel
 example : total wStore [a1] = 110 := by decide +kernel
 
+-- a failing transaction: second transfer exceeds the balance -> reverted, fee kept, total = before - fee
+def wBad : Transfer := { to := [2], value := 1000 }
+def wTxFail : Tx := { sponsor := a1, units := some [1, 1, 1, 1, 1], actions := [wT.action a1, wBad.action a1] }
+example : (txExecute .morpheus [2, 2, 2, 2, 2] wTxFail wView).2.toOption.map (fun r => (r.success, r.fee, r.outputs.length)) = some (false, 10, 1) := by
+  decide +kernel
+example : total (txExecute .morpheus [2, 2, 2, 2, 2] wTxFail wView).1.cur [a1, [2]] = 100 := by decide +kernel
+-- an erroring transaction (sponsor cannot pay): nothing is committed, total unchanged
+def wPoor : Tx := { sponsor := [2], units := some [1, 1, 1, 1, 1], actions := [wT.action [2]], timestamp := 30000 }
+example : (runBlock {} [2, 2, 2, 2, 2] 0 [(fun _ => permAll, wPoor), (fun _ => permAll, { wTxFail with timestamp := 30000 })] wStore).2 = [10] := by
+  decide +kernel
+example : total (runBlock {} [2, 2, 2, 2, 2] 0 [(fun _ => permAll, wPoor), (fun _ => permAll, { wTxFail with timestamp := 30000 })] wStore).1 [a1, [2]] = 100 := by
+  decide +kernel
+
 end HyperModel.Props.C06
